@@ -257,7 +257,7 @@ def signature(fn, bound=False):
     }
 
 
-def bind_error(call, fn, bound=False, extra_pos=0):
+def bind_error(call, fn, bound=False, extra_pos=0, supplied=()):
     """Why the call cannot bind to fn's signature, or None.  Starred args => only keyword names checked."""
     sig = signature(fn, bound)
     star = any(isinstance(x, ast.Starred) for x in call.args)
@@ -277,7 +277,9 @@ def bind_error(call, fn, bound=False, extra_pos=0):
             return f"parameter '{k.arg}' given positionally and by keyword"
         taken.add(k.arg)
     if not star and not dstar:
-        missing = [p for p in sig["required"] if p not in taken] + [p for p in sig["kwreq"] if p not in taken]
+        missing = [p for p in sig["required"] if p not in taken and p not in supplied] + [
+            p for p in sig["kwreq"] if p not in taken and p not in supplied
+        ]
         if missing:
             return f"missing required argument(s) {missing}"
     return None
@@ -464,8 +466,13 @@ def prior_exit_guards(stmt, fn):
                 for s in seq:
                     if s is child:
                         break
-                    if isinstance(s, ast.If) and not s.orelse and _always_exits(s.body):
-                        out.append(s.test)
+                    cur = s
+                    while isinstance(cur, ast.If) and _always_exits(cur.body):
+                        out.append(cur.test)
+                        if len(cur.orelse) == 1 and isinstance(cur.orelse[0], ast.If):
+                            cur = cur.orelse[0]
+                        else:
+                            break
         if a is fn:
             break
         child = a
